@@ -397,6 +397,63 @@ gf_inv(unsigned char *z, const unsigned char *a)
 	memcpy(z, r, 16);
 }
 
+static void
+ghash_upd(unsigned char *y, const unsigned char *h, const unsigned char *d, size_t len)
+{
+	while (len > 0) {
+		unsigned char b[16];
+		size_t c = len < 16 ? len : 16, j;
+
+		memset(b, 0, 16);
+		memcpy(b, d, c);
+		for (j = 0; j < 16; j ++) y[j] ^= b[j];
+		gf_mul(y, y, h);
+		d += c; len -= c;
+	}
+}
+
+static void
+put64(unsigned char *d, unsigned long long v)
+{
+	int i;
+
+	for (i = 7; i >= 0; i --) { d[i] = (unsigned char)v; v >>= 8; }
+}
+
+/*
+ * Spec-level GCM tag (SP 800-38D algorithm 4, steps 5 and 6) over a given ciphertext, with the two 64-bit
+ * fields of the final GHASH block given explicitly (abits, cbits) instead of derived from alen, mlen:
+ *   T = GHASH_H(A || pad || C || pad || [abits]_64 || [cbits]_64) xor E_K(J0)
+ * With abits = 8*alen and cbits = 8*mlen this is the ordinary tag.
+ */
+void
+ref_gcm_tag_model(const unsigned char *key, size_t klen, const unsigned char *nonce, size_t nlen,
+	const unsigned char *aad, size_t alen, const unsigned char *ct, size_t mlen,
+	unsigned long long abits, unsigned long long cbits, unsigned char *tag16)
+{
+	unsigned char h[16], z[16], j0[16], y[16], lb[16], ek[16];
+	int i;
+
+	memset(z, 0, 16);
+	ref_aes_block(key, klen, 1, z, h);
+	if (nlen == 12) {
+		memcpy(j0, nonce, 12);
+		j0[12] = 0; j0[13] = 0; j0[14] = 0; j0[15] = 1;
+	} else {
+		memset(j0, 0, 16);
+		ghash_upd(j0, h, nonce, nlen);
+		put64(lb, 0); put64(lb + 8, (unsigned long long)nlen << 3);
+		ghash_upd(j0, h, lb, 16);
+	}
+	memset(y, 0, 16);
+	ghash_upd(y, h, aad, alen);
+	ghash_upd(y, h, ct, mlen);
+	put64(lb, abits); put64(lb + 8, cbits);
+	ghash_upd(y, h, lb, 16);
+	ref_aes_block(key, klen, 1, j0, ek);
+	for (i = 0; i < 16; i ++) tag16[i] = y[i] ^ ek[i];
+}
+
 /*
  * 16-byte GCM nonce N such that J0 = GHASH_H(N || [0]_64 || [128]_64)
  * equals the requested value (so that the 32-bit block counter starts
